@@ -141,6 +141,57 @@ func gcScenario2286(c *Ctx) (*gcHist, bool, error) {
 	return g, c.nFail > nf, nil
 }
 
+// the #2286 interleaving with the compaction going into a level ABOVE the last one: the last
+// level already holds more than BaseLevelSize of other keys, so the base level is the one above
+// it; the deleted key's range is absent from the last level (no overlap below the output), so
+// only the clamp of the discard timestamp keeps the tombstone while the rewrite is active.
+func gcScenario2286Deep(c *Ctx) (*gcHist, bool, error) {
+	o := gcOpts(false)
+	o.BaseLevelSize = 200
+	g, err := newGcHist(c, o, 1)
+	if err != nil {
+		return nil, false, err
+	}
+	defer g.closeAll()
+	g.keys = [][]byte{[]byte("k"), []byte("p")}
+	// filler in the last level: keys above "p", > 200 bytes
+	var fill [][]byte
+	for i := 0; i < 8; i++ {
+		fill = append(fill, []byte(fmt.Sprintf("x%d", i)), gcBig(byte('a'+i)))
+	}
+	g.write(fill...)
+	g.flush()
+	if ran, err := g.compact(0, false, nil); err != nil || !ran {
+		return g, false, fmt.Errorf("2286-deep: filler compaction did not run (%v)", err)
+	}
+	base := g.db.VerifBaseLevel()
+	c.Extra["scenario_2286_deep_base_level"] = base
+	k := []byte("k")
+	g.write(k, gcBig('v'))
+	g.write([]byte("p"), gcBig('p'))
+	g.flush()
+	fs := g.sealedFiles()
+	if len(fs) == 0 {
+		return g, false, fmt.Errorf("2286-deep: no sealed value-log file")
+	}
+	nf := c.nFail
+	err = g.gcRun(fs[len(fs)-1], 0, nil, func() {
+		g.write(k, nil)
+		g.bumpWatermark()
+		g.flush()
+		if ran, err := g.compact(0, false, nil); err == nil && ran {
+			g.compactInGC = true
+		}
+		g.dump()
+	}, nil)
+	if err != nil {
+		return g, false, err
+	}
+	g.readCheck(k, nil, sigResurrect, "a key deleted during the rewrite is visible again after the write-back (#2286, compaction into a level above the last one)")
+	g.finish()
+	return g, c.nFail > nf, nil
+}
+
 // F26: the delete is committed during the rewrite (clamp-protected while gcActive) and flushed;
 // the write-back puts the old version into the memtable, ABOVE the tombstone; after the
 // rewrite has ended a last-level compaction of the L0 tables drops the tombstone and the old
@@ -312,6 +363,7 @@ var gcScenarios = []gcScenario{
 	{"F26", gcScenarioF26},
 	{"F27", gcScenarioF27},
 	{"2286-regression", gcScenario2286},
+	{"2286-regression-deep", gcScenario2286Deep},
 	{"deferred-deletion", gcScenarioDeferred},
 	{"F8", gcScenarioF8},
 }
